@@ -341,6 +341,55 @@ var Scenarios = []Directed{
 		s.Restart()
 		s.Blocks(4, allHdr)
 	}},
+	{"big_powers", []string{"C15", "C14", "C11", "C13", "C02", "C10", "C12"}, BigUnitFamily, func(s *Script) {
+		// powers of the order of 10^17: products like power x ratio leave the 64-bit range.  A voter is accused after it
+		// voted (196608 -> 98304 units), a validator bonds more, another one is accused while absent.  (No delegation: the
+		// application's ratio checks multiply a power by 100 in 64 bits and refuse valid delegations at this size - not a
+		// matter of the listed properties, see DESIGN 11.21.)
+		s.Blocks(2, allHdr)
+		s.Begin(allHdr) // 3
+		s.expect(OK(s.Propose(3, 5, 4, 13, `{"lazyRewardBlocks":"5"}`)), "a3 opens a proposal")
+		s.expect(OK(s.Stake(1, 1, "98304e30")), "a1 bonds 98304 units more (two own stakes)")
+		s.End()
+		p := s.Proposals()
+		if len(p) != 1 {
+			s.expect(false, "one proposal in voting")
+			return
+		}
+		s.Blocks(1, allHdr)
+		s.Begin(allHdr) // 5
+		s.expect(OK(s.Vote(1, p[0], 0)), "a1 (196608 units at submission) votes")
+		s.expect(OK(s.Vote(3, p[0], 0)), "a3 (294912) votes")
+		s.End()
+		s.Begin(Hdr{Evidence: []int{1}}) // 6: a1 loses half
+		s.End()
+		s.Begin(allHdr) // 7
+		s.expect(OK(s.Withdraw(3, "1e18")), "a3 withdraws some reward")
+		if ids := s.StakeIDs(1, 1); len(ids) == 2 {
+			s.expect(OK(s.Unstake(1, 1, ids[1])), "a1 releases its second stake")
+		}
+		s.End()
+		s.Begin(Hdr{Evidence: []int{3}, Absent: []int{2}}) // 8
+		s.End()
+		s.Blocks(8, allHdr)
+	}},
+	{"restart_after_first_block", []string{"C10", "C07"}, fam(0), func(s *Script) {
+		// the very first block already changes the staking ledger (a new validator, a delegation), and the process is
+		// restarted right after it: version 1 is the only committed version, there is no version before it
+		s.Begin(allHdr) // 1
+		s.expect(OK(s.Stake(4, 4, "7e18")), "a4 becomes a validator in block 1")
+		s.expect(OK(s.Stake(5, 1, "2e18")), "a5 -> a1 in block 1")
+		s.End()
+		s.Restart()
+		s.Blocks(2, allHdr)
+		s.Begin(allHdr) // 4
+		if ids := s.StakeIDs(4, 4); len(ids) == 1 {
+			s.expect(OK(s.Unstake(4, 4, ids[0])), "a4 leaves again")
+		}
+		s.End()
+		s.Restart()
+		s.Blocks(5, allHdr)
+	}},
 	{"self_unstake_after_restart", []string{"C11", "C10", "C12", "C07"}, fam(0), func(s *Script) {
 		// stakes created in one life of the process are released in the next one: a validator with delegators withdraws
 		// its only own stake (everybody is released), another one withdraws one of its two own stakes (it stays, smaller)
